@@ -554,6 +554,26 @@ def stateful_constructs(func):
     for d in func.decorators:
         if d.split('.')[-1] in ('lru_cache', 'cache', 'cached', 'memoize', 'memoized'):
             out.append((func.node, 'memoisation decorator @%s' % d))
+    # a mutable default value is created once and shared by every call: writing into it (or handing it out) keeps state
+    a_ = getattr(func.node, 'args', None)
+    if a_ is not None:
+        pos = a_.args[len(a_.args) - len(a_.defaults):] if a_.defaults else []
+        for p_, d_ in list(zip(pos, a_.defaults)) + [(p2, d2) for p2, d2 in zip(a_.kwonlyargs, a_.kw_defaults) if d2 is not None]:
+            mutable = isinstance(d_, (ast.Dict, ast.List, ast.Set)) or (
+                isinstance(d_, ast.Call) and isinstance(d_.func, ast.Name) and d_.func.id in ('dict', 'list', 'set', 'defaultdict', 'OrderedDict', 'Counter'))
+            if not mutable:
+                continue
+            nm = p_.arg
+            for n in ast.walk(func.node):
+                wr = (isinstance(n, (ast.Assign, ast.AugAssign)) and any(
+                    isinstance(t, ast.Subscript) and isinstance(t.value, ast.Name) and t.value.id == nm
+                    for t in (n.targets if isinstance(n, ast.Assign) else [n.target]))) or \
+                    (isinstance(n, ast.Call) and isinstance(n.func, ast.Attribute) and isinstance(n.func.value, ast.Name) and n.func.value.id == nm and
+                     n.func.attr in ('add', 'append', 'update', 'setdefault', 'pop', 'clear', 'discard', 'remove', 'extend', 'insert')) or \
+                    (isinstance(n, ast.Return) and isinstance(n.value, ast.Name) and n.value.id == nm)
+                if wr:
+                    out.append((n, 'mutable default argument `%s=%s` is written / handed out' % (nm, norm(d_))))
+                    break
     for n in ast.walk(func.node):
         if isinstance(n, ast.Global):
             out.append((n, 'global statement'))
